@@ -155,6 +155,11 @@ impl<'tcx> Cx<'tcx> {
         i.to_string()
     }
 
+    fn cpath(&self, d: DefId) -> String {
+        // canonical, re-export independent path: crate name + DefPath
+        format!("{}{}", self.tcx.crate_name(d.krate), self.tcx.def_path(d).to_string_no_crate_verbose())
+    }
+
     fn crate_of(&self, d: DefId) -> String {
         self.tcx.crate_name(d.krate).to_string()
     }
@@ -380,6 +385,7 @@ impl<'a, 'tcx> BodyCx<'a, 'tcx> {
         let tcx = self.tcx();
         let mut v = vec![
             ("path", esc(&self.cx.path(def_id))),
+            ("cpath", esc(&self.cx.cpath(def_id))),
             ("crate", esc(&self.cx.crate_of(def_id))),
             ("name", esc(&tcx.item_name(def_id).to_string())),
         ];
@@ -404,6 +410,7 @@ impl<'a, 'tcx> BodyCx<'a, 'tcx> {
                 let rd = inst.def_id();
                 if rd != def_id {
                     v.push(("resolved", esc(&self.cx.path(rd))));
+                    v.push(("resolved_cpath", esc(&self.cx.cpath(rd))));
                     if let Some(imp) = tcx.impl_of_assoc(rd) {
                         let st = tcx.type_of(imp).instantiate_identity().skip_norm_wip();
                         v.push(("resolved_self", esc(&st.to_string())));
@@ -696,6 +703,7 @@ impl<'a, 'tcx> BodyCx<'a, 'tcx> {
         let kind = tcx.def_kind(def_id);
         let mut v: Vec<(&str, String)> = vec![
             ("path", esc(&self.cx.path(def_id))),
+            ("cpath", esc(&self.cx.cpath(def_id))),
             ("kind", esc(&format!("{:?}", kind))),
             ("span", esc(&self.cx.span(body.span))),
             ("exp", b(body.span.from_expansion())),
